@@ -7,7 +7,8 @@
    Deferreds).  All theorems hold for EVERY configuration c (acks 0/1/-1, any batching thresholds, any attempt limit),
    every initial client state and EVERY event list evs (user calls, client results incl. error codes, failed
    payloads, cancellations, timers, metadata changes, stop) - no bound on anything. *)
-From AV Require Import Base.Util Model.Producer Proofs.ProducerC01Spec Proofs.ProducerC01Thm.
+From AV Require Import Base.Util Model.Producer Model.ProducerCompose Proofs.ProducerC01Spec Proofs.ProducerC01Thm
+  Proofs.ProducerC01Compose.
 
 (* No send fires twice: the ids that received an outcome, in firing order, are pairwise distinct. *)
 Theorem C01_at_most_once : forall c has_t api0 cache0 evs s tr,
@@ -75,6 +76,21 @@ Theorem C01_limit_resolves : forall c has_t api0 cache0 evs s tr pls cur v s' o,
 Proof. exact limit_resolves. Qed.
 Print Assumptions C01_limit_resolves.
 
+(* Composed with the broker spec of Model/ProducerCompose.v (partition -> log, produce = append, reply = error code
+   or base offset; the client's results are COMPUTED from what the cluster does with each payload: acknowledge,
+   answer with an error code, or lose the response - the last two with or without having appended).  For every
+   configuration and every list of composed events: a Deferred fires with ProduceResponse(t, p, _, off) only if the
+   log of (t, p) - then and at the end of the run, logs only grow - holds at offset off a payload ms that contains
+   the messages of that send as one contiguous run in order, and t is the topic the send was submitted for. *)
+Theorem C01_composed_truthful : forall c has_t api0 cache0 ces s lg tr tr1 e outs tr2 sid t p err off,
+  crun c (init_state has_t api0 cache0) [] ces = (s, lg, tr) -> tr = tr1 ++ (e, outs) :: tr2 ->
+  In (OOutcome sid (OResp t p err off)) outs ->
+  exists x ms pre post,
+    In x (accepted 0 (map fst tr)) /\ s_id x = sid /\ s_topic x = t /\ contiguous x ms /\
+    log_of lg (t, p) = pre ++ ms ++ post /\ Z.of_nat (length pre) = off.
+Proof. exact composed_truthful. Qed.
+Print Assumptions C01_composed_truthful.
+
 (* ---- non-vacuity: concrete runs reaching the situations the theorems speak about ---- *)
 Definition cfg1 (acks mx : Z) := {| c_acks := acks; c_n := 1; c_b := 1; c_max := mx |}.
 Definition st1 := init_state false 1 [(0, (0, true))].
@@ -107,3 +123,14 @@ Example ex_stop :
   fired tr = [0; 1] /\ outstanding s = [] /\
   Forall (fun o => match o with OOutcome _ (OFail _ _) => True | OOutcome _ _ => False | _ => True end) (outs_of tr).
 Proof. vm_compute. repeat split; auto. repeat constructor. Qed.
+
+(* composed: two sends to one partition; the first request is answered with NotLeader (6), the retry is
+   acknowledged; a third send is appended although its response is lost, retried and appended again (duplicate) *)
+Example ex_composed :
+  let '(s, lg, tr) := crun (cfg1 1 3) st1 []
+      [CEv (ESend 0 0 2 9); CAnswer [((0, 0), RErr 6 false)]; CEv (EMetaSet 0 0 true); CEv (ETimer 0);
+       CAnswer [((0, 0), RAck)];
+       CEv (ESend 0 0 1 4); CAnswer [((0, 0), RLost 13 true)]; CEv (EMetaSet 0 0 true); CEv (ETimer 1); CAnswer [((0, 0), RAck)]] in
+  fired tr = [0; 1] /\ In (OOutcome 0 (OResp 0 0 0 0)) (outs_of tr) /\ In (OOutcome 1 (OResp 0 0 0 3)) (outs_of tr) /\
+  log_of lg (0, 0) = [(0, 0); (0, 1); (1, 0); (1, 0)].
+Proof. vm_compute. repeat split; auto 20. Qed.
